@@ -6,12 +6,14 @@ import codec, cells
 from present import Presenter
 
 MODEL_TARGETS = ["model/Ser.vo", "spec/Denote.vo"]
-COQ_TARGETS = ["props/C02.vo"]
+COQ_TARGETS = ["props/C02.vo", "proofs/SerDispatchTie.vo"]
 THEOREMS = [("C02", ["C02_canonical", "C02_to_datum", "C02_sound", "C02_sound_node", "C02_denotes", "C02_denotes_present", "C02_nopanic", "C02_unnamed_never_union", "C02_named_selects_branch", "C02_decimal_string",
                      "C02_int_range", "C02_long_range", "C02_enum_index", "C02_enum_symbol", "C02_fixed_length", "C02_duration_length",
-                     "C02_string_utf8", "C02_decimal_fixed_fit"])]
-PROOF_FILES = ["proofs/SerProofs.v", "proofs/SerLeafProofs.v", "props/C02.v", "proofs/SerSoundProofs.v", "proofs/SerSoundDecimal.v", "proofs/SerSoundBytes.v", "proofs/RecordProofs.v", "proofs/SerContractProofs.v", "proofs/SerSafetyProofs.v", "proofs/DenotesDefs.v", "proofs/SerDenotesProofs.v"]
+                     "C02_string_utf8", "C02_decimal_fixed_fit"]),
+            ("SerDispatchTie", ["tie_ser_bool", "tie_ser_integer", "tie_ser_f32", "tie_ser_f64", "tie_ser_str", "tie_ser_bytes", "tie_ser_unit", "tie_ser_unit_struct", "tie_ser_unit_variant", "tie_ser_seq", "tie_ser_map", "tie_ser_forward_names", "tie_ser_simple_forwards", "ser_int_leaf_is_rows", "ser_str_leaf_is_rows", "ser_bytes_leaf_is_rows"])]
+PROOF_FILES = ["proofs/SerProofs.v", "proofs/SerLeafProofs.v", "props/C02.v", "proofs/SerSoundProofs.v", "proofs/SerSoundDecimal.v", "proofs/SerSoundBytes.v", "proofs/RecordProofs.v", "proofs/SerContractProofs.v", "proofs/SerSafetyProofs.v", "proofs/DenotesDefs.v", "proofs/SerDenotesProofs.v", "proofs/SerDispatchTie.v"]
 TRUSTED_BASE = [
+    "dispatch tie: translators/gen_ser_dispatch.py (+ rustmatch.py) reads the arms of the serialize_* methods of DatumSerializer into gen/GenSerDispatch.v; proofs/SerDispatchTie.v ties them to the rows of model/Ser.v (leaf functions proved to be the interpretation of the rows on non-union nodes; 2 arms unclassified: the Decimal arm of serialize_integer and the Union arm of serialize_unit_variant)",
     "Coq 8.16.1 kernel; no axioms (Print Assumptions: closed)",
     "translators/gen_union.py: the union lookup priorities, registered names and the closures' code shape are regenerated / pinned from union_variants_per_type_lookup.rs on every run; theorems about the table are re-proved against it",
     "hand-written model/Ser.v tied by the correspondence run: the full (serde call x node kind) cell matrix with boundary values, all pairs of node kinds as unions, random presentations",
@@ -82,15 +84,48 @@ def run(ctx):
         amb_idx.add(len(lines))
         lines.append("ser %s %s" % (sch, sv)); meta.append(("ambiguous-union", "")); schemas.append(sch)
     # ---- 2. random presentations of conforming values, with deliberate breakages
+    import directed as D
     nrand = 2500 if quick else 120000
     rp = [G.schema_and_value(rng, layouts=False) for _ in range(nrand)]
+    # (names colliding with those the union lookup registers: at random and as a directed family)
+    rp += [G.schema_and_value(rng, layouts=False, special_names=0.35) for _ in range(nrand // 5)]
+    for _ in range(200 if quick else 6000):
+        nodes = D.name_clash_case(rng)
+        v = G.ValueGen(rng, nodes, layouts=False).gen(0)
+        if v is not None:
+            rp.append((nodes, v))
     sp = codec.spec_batch(rp)
     rand_meta = {}
     for s in sp:
-        pr = Presenter(rng, s["nodes"], break_prob=0.08)
+        pr = Presenter(rng, s["nodes"], break_prob=0.08, option_prob=0.3)
         sv = pr.pres(0, C.parse_sx(s["evalue"])[0])
         rand_meta[len(lines)] = (pr.expect, pr.notes, s)
         lines.append("ser %s %s%s" % (s["schema"], sv, " slow" if pr.needs_slow else "")); meta.append(("random-" + pr.expect, "")); schemas.append(s["schema"])
+    # ---- 3. records: a field presented twice at every pair of positions of the presentation (both occurrences ahead of the
+    #         field the serializer waits for, one written and one buffered, both late ...), in the struct / map forms: Err
+    nrec = 24 if quick else 800
+    recs = []
+    for _ in range(nrec):
+        nodes = D.nullable_record_case(rng, nfields=rng.choice([3, 4, 5]))
+        v = D.value_with_nulls(rng, nodes, tries=2)
+        if v is not None:
+            recs.append((nodes, v))
+    dup_idx = {}
+    for s in codec.spec_batch(recs):
+        rc = D.RecCase(rng, s)
+        for line, what in rc.duplicate_lines(5 if quick else 12):
+            dup_idx[len(lines)] = what
+            lines.append(line); meta.append(("duplicate-field", "")); schemas.append(s["schema"])
+    # ---- 4. decimals over bytes and over fixed of every size 0..40 (beyond the 16 bytes of the mantissa buffer the number is
+    #         sign-extended), boundary and negative values, as strings (the rust_decimal path) and integers: if Ok, the bytes
+    #         are those of the extracted specification
+    dcases = D.decimal_cases(rng, 500 if quick else 20000)
+    dspec = codec.spec_batch([(nodes, v) for nodes, v, _ in dcases])
+    dec_idx = {}
+    for (nodes, v, pres), s in zip(dcases, dspec):
+        for sv, keeps in pres:
+            dec_idx[len(lines)] = s
+            lines.append("ser %s %s" % (s["schema"], sv)); meta.append(("decimal", "")); schemas.append(s["schema"])
     impl, model = codec.both(lines)
     de_lines, de_idx = [], []
     unmodelled = 0
@@ -103,6 +138,13 @@ def run(ctx):
             diffs.append(codec.diff_entry(line, ri, rm))
         if ri.startswith("(panic") or ri.startswith("(crash"):
             violations.append({"impl_case": line, "what": "the serializer panicked", "impl": ri[:200]})
+        if i in dup_idx and ri.startswith("(ok"):
+            violations.append({"impl_case": line, "what": "a record with a duplicated field was accepted: " + dup_idx[i], "impl": ri[:200]})
+        if i in dec_idx:
+            if ri.startswith("(ok") and ri != "(ok %s)" % dec_idx[i]["enc"]:
+                violations.append({"impl_case": line, "what": "decimal: Ok with bytes that are not the two's-complement big-endian encoding of the number",
+                                   "impl": ri[:200], "expected": dec_idx[i]["enc"][:200]})
+            continue        # (the crate's decoder stops at 16-byte decimals: no decode-back for this family)
         if ri.startswith("(ok"):
             de_lines.append("de %s any %s slice (cfg 100000 64 100000)" % (schemas[i], C.parse_sx(ri)[0][1])); de_idx.append(i)
         if i in amb_idx and ri.startswith("(ok"):
@@ -120,7 +162,7 @@ def run(ctx):
                                "bytes": impl[i][:200], "decode": dr[:300]})
         elif i in rand_meta:
             ex, notes, s = rand_meta[i]
-            if ex == "value" and G.erase_borrow_text(dr) != "(ok %s 0)" % s["dany"]:
+            if ex in ("value", "value-if-ok") and G.erase_borrow_text(dr) != "(ok %s 0)" % s["dany"]:
                 violations.append({"impl_case": lines[i], "what": "the bytes written decode to a different value", "decode": dr[:300],
                                    "expected": s["dany"][:300]})
     samples = [{"case": l[:160]} for l in rng.sample(lines, 5)]
@@ -129,6 +171,9 @@ def run(ctx):
                     "values (every integer width at the i8..i128 boundaries, strings/bytes of special content, every compound form incl. "
                     "ill-advertised lengths and protocol variants): model = crate, and every Ok is decoded back by the crate; (2) random "
                     "presentations of conforming values with injected breakages: breakages must fail, preserved values must succeed and decode "
-                    "to the value the extracted specification assigns" % len(svs),
+                    "to the value the extracted specification assigns (incl. unions of null and one branch presented by type as Option<T> does, "
+                    "names colliding with the union lookup's); (3) records of 3..5 fields with a field presented twice at every pair of "
+                    "positions x orders x struct/map forms: must fail; (4) decimals over bytes / fixed of every size 0..40 x boundary and "
+                    "negative values as strings and integers: Ok only with the specification's bytes" % len(svs),
             "samples": samples, "violations": violations, "model_diffs": diffs, "distribution": dict(dist),
             "notes": "%d cases outside the modelled domain (f64->decimal, decimal strings outside the canonical grammar)" % unmodelled}
